@@ -91,7 +91,11 @@ def abstract(v, depth=0):
         return {'t': 'table', 'e': es}
     if isinstance(v, list):
         return {'t': 'array', 'e': [abstract(x, depth + 1) for x in v]}
-    return {'t': 'other', 'name': type(v).__name__}
+    try:
+        falsy = not bool(v)
+    except Exception:  # noqa
+        falsy = False
+    return {'t': 'other', 'name': type(v).__name__, 'falsy': falsy}
 
 
 def concrete(a):
@@ -169,18 +173,25 @@ def a_frame(f):
         size = f.body_size
         ok = isinstance(size, int) and not isinstance(size, bool) and size >= 0
         cid = f.class_id if isinstance(f.class_id, int) else -1
-        return {'cls': 'ContentHeader', 'class_id': cid, 'weight': f.weight if isinstance(f.weight, int) else -1,
+        return {'cls': 'ContentHeader', 'class_id': cid,
+                'weight': int(f.weight) if isinstance(f.weight, int) and abs(f.weight) < 2 ** 31 else -1,
                 'size': mag(size) if ok else [], 'size_ok': ok,
                 'props': a_props(f.properties) if isinstance(f.properties, base.BasicProperties)
                 else {'bad': abstract(f.properties)}}
     if isinstance(f, body.ContentBody):
         v = f.value
-        return {'cls': 'ContentBody', 'b': list(v) if isinstance(v, (bytes, bytearray)) else [],
-                'b_ok': isinstance(v, (bytes, bytearray)), 'len': len(f)}
+        try:
+            ln = len(f)
+        except Exception:  # noqa
+            ln = -1
+        ok = isinstance(v, (bytes, bytearray, memoryview))
+        return {'cls': 'ContentBody', 'b': list(bytes(v)) if ok else [], 'b_ok': ok, 'len': ln}
     if isinstance(f, heartbeat.Heartbeat):
         return {'cls': 'Heartbeat'}
     if isinstance(f, header.ProtocolHeader):
-        return {'cls': 'ProtocolHeader', 'v': [f.major_version, f.minor_version, f.revision]}
+        def octet(x):     # True == 1 numerically; anything that is not an int is projected to -1
+            return int(x) if isinstance(x, int) and -2 ** 31 < x < 2 ** 31 else -1
+        return {'cls': 'ProtocolHeader', 'v': [octet(f.major_version), octet(f.minor_version), octet(f.revision)]}
     return {'cls': 'Other', 'name': type(f).__name__}
 
 
